@@ -103,6 +103,12 @@ def _check_case(case):
         for p in (P, W):
             p.beta, p.gamma, p.aeromu = 2.3, 0.0, 0.1
         A, B = mats(P), mats(W)
+        # the same pair with the reference surface moved off the mid-plane (the bending block follows D + 2dB + d^2 A in both)
+        Po = pan.make_panel(dict(base, model='plate', offset='+d'))
+        Wo = pan.make_panel(dict(base, model='plate_w', offset='+d'))
+        Ao, Bo = mats(Po), mats(Wo)
+        for nm in Ao:
+            A[nm + ' (offset)'], B[nm + ' (offset)'] = Ao[nm], Bo[nm]
         A['kA'], B['kA'] = pan.dense(P.calc_kA(silent=True)), pan.dense(W.calc_kA(silent=True))
         for nm in A:
             blk = A[nm][2::3, 2::3]
@@ -110,16 +116,18 @@ def _check_case(case):
             if blk.shape != B[nm].shape or np.abs(blk - B[nm]).max() > 1e-12 * sc:
                 fails.append(fail('w-only plate model differs from the out-of-plane block of the full plate model (%s)' % nm, sig=None, case=case))
     elif kind == 'numeric':
-        for model, ortho in (('plate', 0), ('cpanel', 0), ('plate', 1), ('cpanel', 1)):
+        for model, ortho, pre in (('plate', 0, 0), ('cpanel', 0, 0), ('plate', 1, 0), ('cpanel', 1, 0), ('plate', 0, 1), ('cpanel', 0, 1)):
             p = pan.make_panel(dict(base, model=model, r=1.5))
             p.force_orthotropic_laminate = bool(ortho)
+            if pre:          # constant pre-load: part of k0 on both routes, never of the state-based geometric matrix
+                p.Nxx_cte, p.Nyy_cte, p.Nxy_cte = -1.2e3, 0.4e3, 0.3e3
             K = pan.dense(p.calc_k0(silent=True))
             nx, ny = case['m'] + 4, case['n'] + 4
             c0 = np.zeros(3 * case['m'] * case['n'])
             for lbl, kw in (('c=0', dict(c=c0)), ('Fnxny only', dict(Fnxny=np.array(p.F))), ('c=0,NLgeom', dict(c=c0, NLgeom=True))):
                 Kn = pan.dense(p.calc_k0(silent=True, nx=nx, ny=ny, **kw))
                 if np.abs(Kn - K).max() > 1e-10 * np.abs(K).max():
-                    fails.append(fail('numerically integrated k0 at the undeformed state differs from the analytic one (%s, %s)' % (model + (', forced orthotropic' if ortho else ''), lbl),
+                    fails.append(fail('numerically integrated k0 at the undeformed state differs from the analytic one (%s, %s)' % (model + (', forced orthotropic' if ortho else '') + (', constant pre-load' if pre else ''), lbl),
                                       sig=None, case=case, rel=float(np.abs(Kn - K).max() / np.abs(K).max())))
             G0 = pan.dense(p.calc_kG0(c=c0, nx=nx, ny=ny, silent=True))
             if np.abs(G0).max() != 0:
